@@ -500,6 +500,9 @@ def merge_rotations(circuit: Circuit):
         Circuit: circuit with merged rotations
     """
 
+    # Parameters are accumulated in place on the gates of the output circuit: work on a copy of the input.
+    circuit = circuit.copy()
+
     NoneGate = Gate('NONE', 0)
 
     gate_qubits = {i: list() for i in range(circuit.width)}
